@@ -146,7 +146,8 @@ def judge_python_objects(ctx, kt, universe):
     """Maps and sets built from Python objects (dict / list in any order) are sorted by the Michelson order like any other."""
     from rv.hooks import extract as X
     srt = O.sort_unique(kt, universe)
-    if len(srt) < 2:
+    from rv.checks.c03 import nested_option
+    if len(srt) < 2 or nested_option(kt):      # Python objects of nested options collapse (C12's known finding): not this monitor's matter
         return
     for coll in ('map', 'set'):
         t = T.map_(kt, T.NAT) if coll == 'map' else T.set_(kt)
